@@ -23,10 +23,15 @@ OWNER = {"insert": "C04", "remove": "C05", "elevate": "C06", "reduce": "C06",
 # --------------------------------------------------------------------------
 # plan generation
 # --------------------------------------------------------------------------
-def gen_curve_spec(rng, mode, rational, maxp, maxint, profile, dyadic=False, maxnpts=10):
+def gen_curve_spec(rng, mode, rational, maxp, maxint, profile, dyadic=False, maxnpts=10, bigden=False):
     p = rng.randint(0, maxp)
     nint = rng.randint(0, maxint)
-    if mode == "float" or dyadic:
+    if bigden:
+        # rationals with large, mutually prime denominators (decimal-looking data): exact arithmetic then runs
+        # through integers far beyond 64 bits; distinct values stay >= 5e-4 apart
+        vals = sorted(set(Fraction(rng.randint(-3000, 4000), 1000) + Fraction(rng.randint(1, 40), rng.choice([99991, 100003, 65537]))
+                          for _ in range(nint + 2)))
+    elif mode == "float" or dyadic:
         vals = sorted(set(Fraction(rng.randint(-192, 256), 64) for _ in range(nint + 2)))
     else:
         vals = sorted(set(Fraction(rng.randint(-3 * d, 4 * d), d) for d in [rng.choice([1, 1, 2, 3, 4, 6, 8, 12, 16, 24, 48])
@@ -54,9 +59,10 @@ def gen_curve_spec(rng, mode, rational, maxp, maxint, profile, dyadic=False, max
 
 
 DYADIC_TS = ["1/2", "1/4", "3/4", "5/8", "7/16"]
+BIG_TS = ["46504/100000", "67174/100000", "12345/99991", "31/97", "50021/100003", "1/2"]
 
 
-def _nodes(rng, nmax=3, dyadic=False):
+def _nodes(rng, nmax=3, dyadic=False, bigden=False):
     out = []
     for _ in range(rng.randint(1, nmax)):
         r = rng.random()
@@ -65,7 +71,7 @@ def _nodes(rng, nmax=3, dyadic=False):
         elif r < 0.38:
             out.append(["zero"])
         else:
-            out.append(["mid", rng.randrange(8), rng.choice(DYADIC_TS if dyadic else TS)])
+            out.append(["mid", rng.randrange(8), rng.choice(DYADIC_TS if dyadic else BIG_TS if bigden else TS)])
     if rng.random() < 0.3:
         out.append(list(out[0]))
     return out
@@ -102,13 +108,14 @@ def gen_plan(prop, seed, tier):
     # elimination meets integers beyond 64 bits and long multiplicity patterns
     large = tier == "thorough" and not rational and mode == "exact" and profile in ("frac", "vec") and rng.random() < 0.06
     cfg["large"] = large
+    cfg["bigden"] = mode == "exact" and profile in ("frac", "vec") and not cfg["shadow"] and not rational and rng.random() < 0.12
     if large:
         cfg["init"] = gen_curve_spec(rng, mode, rational, 4, rng.randint(3, 6), "frac" if profile == "frac" else "vec",
                                      dyadic=cfg["shadow"], maxnpts=20)
         cfg["init"]["p"] = cfg["init"]["p"]
     else:
         cfg["init"] = gen_curve_spec(rng, mode, rational, maxp, rng.randint(0, 3), "frac" if profile == "frac" else "vec",
-                                     dyadic=cfg["shadow"])
+                                     dyadic=cfg["shadow"], bigden=cfg["bigden"])
     nops = rng.randint(3, 14 if tier == "thorough" else 9)
     weights = {
         "C04": [("insert", 10), ("elevate", 2), ("remove", 2), ("reduce", 1), ("clean", 1)],
@@ -126,7 +133,7 @@ def gen_plan(prop, seed, tier):
         faulty = rng.random() < cfg["fault_rate"]
         tol = rng.choice(["default", "default", "default", "1e-3", "1e-12", "0", "none"])
         if k in ("insert", "insert+undo"):
-            op = {"op": "insert", "t": t, "nodes": _nodes(rng, 3, cfg["shadow"])}
+            op = {"op": "insert", "t": t, "nodes": _nodes(rng, 4 if cfg["bigden"] else 3, cfg["shadow"], cfg["bigden"])}
             if faulty and k == "insert":
                 r = rng.random()
                 if r < 0.35:
